@@ -15,7 +15,7 @@ PROPS = {"C10": dict(
         "Zrnt.Proofs.C10.no_panic_quiet",
         "Zrnt.Proofs.C10.updates_refine_partial",
     ],
-    modes=[dict(name="fc10", stateful=True, max_shrinks=3,
+    modes=[dict(name="fc10", stateful=True, max_shrinks=2,
                 nontrivial=_nontrivial(("justify", "nodes", "head", "just", "fin", "pinq", "block", "att", "slot")))],
     level="proof",
     trusted_base=FC_TB,
